@@ -1031,7 +1031,7 @@ class Interp:
         if 'move' in op:
             ptr = self.eval_place(st, fid, op['move'])
             v = self.load(st, ptr)
-            if ptr[0] in ('L', 'O') and v[0] not in ('int', 'bool', 'boolc', 'boolu', 'ref', 'rawslot'):
+            if ptr[0] in ('L', 'O') and v[0] not in ('int', 'bool', 'boolc', 'boolu', 'ref', 'rawslot', 'rawbase'):
                 self.store(st, ptr, MOVED)
             return v
         if 'const' in op:
@@ -1310,6 +1310,10 @@ class Interp:
                         return [(st, ('ref', x[1], ('O', oid, ())))]
                 return [(st, x)]
             if kind.startswith('IntToInt'):
+                return [(st, x)]
+            if x[0] in ('rawslot', 'rawbase') and ('MutToConstPointer' in kind or (
+                    kind == 'PtrToPtr' and v['ty'].get('k') == 'rawptr' and ty_is_mu(v['ty'].get('to') or {}))):
+                # *mut MaybeUninit<(K, V)>  ->  *const MaybeUninit<(K, V)>: the same pointer
                 return [(st, x)]
             if 'ReifyFnPointer' in kind or 'ClosureFnPointer' in kind:
                 return [(st, x)]
